@@ -49,6 +49,11 @@ Sane(x) == Len(x) <= 128 /\ Small(x, 250000)
 Evaluable(e, X, Y) == Sane(X) /\ (Cx(e) => Sane(Y) /\ Len(Y) = Len(X))
 PSafe(e, X, Y, a, b) == ProdSafe(X, IF Cx(e) THEN Y ELSE Zeros(Len(X)), a, b)
 
+\* coefficient of scale s in the sum of the entries a..b (of the products with ys when withY)
+RECURSIVE Coef(_, _, _, _, _, _)
+Coef(xs, ys, withY, a, b, s) == IF a > b THEN 0
+                                ELSE (IF xs[a + 1][2] = s THEN xs[a + 1][1] * (IF withY THEN ys[a + 1] ELSE 1) ELSE 0) + Coef(xs, ys, withY, a + 1, b, s)
+
 \* results of the model for the mutators that act on the two parts independently
 LinPostRe(e, X) == ApplyOp(X, e)
 LinPostIm(e, Y) == ApplyOp(Y, ImOp(e))
@@ -62,10 +67,14 @@ Explained(e, X, Y) ==
                        ELSE OutOfDomain(e, X, Y)
     [] e.op \in {"resize", "sort", "sort_desc"} -> GoodMut(e, LinPostRe(e, X), Y)                   \* real element types only
     [] e.op \in {"add_assign", "sub_assign"} -> IF SameSize(X, e.v) THEN GoodMut(e, LinPostRe(e, X), LinPostIm(e, Y)) ELSE OutOfDomain(e, X, Y)
+    [] e.op = "clone_from" -> GoodMut(e, e.v, IF Cx(e) THEN Vi(e) ELSE Y)
     [] e.op = "mul_assign" -> IF Cx(e) THEN GoodMut(e, CScaleRe(X, Y, e.x, Xi(e)), CScaleIm(X, Y, e.x, Xi(e))) ELSE GoodMut(e, Scale(X, e.x), Y)
     [] e.op = "div_assign" -> /\ ~e.panic /\ Len(e.post) = Len(X)
                               /\ IF Cx(e) THEN Len(e.posti) = Len(X) /\ CIsQuot(e.post, e.posti, X, Y, e.x, Xi(e)) ELSE IsQuot(e.post, X, e.x)
     \* ---- observers: the operand must be unchanged and the result must be the definition ----
+    \* == and != (ri = 1 for true): equal length and equal elements; operands sharing a prefix but differing in length are unequal
+    [] e.op = "eq" -> GoodI(e, X, Y, IF Equal(X, e.v) /\ (Cx(e) => Equal(Y, Vi(e))) THEN 1 ELSE 0)
+    [] e.op = "ne" -> GoodI(e, X, Y, IF Equal(X, e.v) /\ (Cx(e) => Equal(Y, Vi(e))) THEN 0 ELSE 1)
     [] e.op = "size" -> GoodI(e, X, Y, Len(X))
     [] e.op = "get" -> IF InRange(X, e.i) THEN GoodS(e, X, Y, El(X, e.i), IF Cx(e) THEN El(Y, e.i) ELSE 0) ELSE OutOfDomain(e, X, Y)
     [] e.op = "clone" -> GoodV(e, X, Y, X, Y)
@@ -140,6 +149,14 @@ Explained(e, X, Y) ==
                          /\ (e.hascx = 1 => /\ IsModulusVec(e.cab, e.zr, e.zi) /\ e.cn1 = Sum(e.cab) /\ e.cni = MaxFrom(e.cab, 1)
                                             /\ e.csr = Sum(e.zr) /\ e.csi = Sum(e.zi)
                                             /\ (e.hasd = 1 => e.cdr = CDotRe(e.zr, e.zi, e.cw, e.ci) /\ e.cdi = CDotIm(e.zr, e.zi, e.cw, e.ci)))
+    \* cancellation family: entries xs[i] = <<m, si>> meaning m * 2^S[si], S = (-1, 0, 52, 53, 60).  The exact value of a range sum is
+    \* given by its coefficient per scale, recomputed HERE; the harness certifies per range whether every left-to-right partial
+    \* sum is exactly representable (dem) and whether the returned f64 equals the exact value (ok).  Exactness is demanded only
+    \* where the definition's own left-to-right evaluation is exact.
+    [] e.op = "csum" -> /\ ~e.panic /\ Len(e.rs) = Len(e.xs) - e.a /\ Len(e.ok) = Len(e.rs) /\ Len(e.dem) = Len(e.rs)
+                        /\ \A k \in 1..Len(e.rs) : (\A s \in 1..5 : e.rs[k][s] = Coef(e.xs, e.ys, FALSE, e.a, e.a + k - 1, s - 1)) /\ (e.dem[k] => e.ok[k])
+                        /\ (Has(e, "sok") => (e.dem[Len(e.dem)] => e.sok)
+                                             /\ (\A s \in 1..5 : e.dcoef[s] = Coef(e.xs, e.ys, TRUE, 0, Len(e.xs) - 1, s - 1)) /\ (e.ddem => e.dok))
     [] OTHER -> FALSE
 
 \* the model state after an accepted event
